@@ -251,7 +251,10 @@ def normal_exit(run, fs, res, rep):
                        detail=f"result {res} is not a {fs.ret}")
             return
     for cname, f in list(fs.ensures.items()) + list(fs.body_ensures.items()):
-        run.oblige(f"{key}/post/{cname}", run.clause(cname, f, cexit), kind='post', clause=cname, function=key)
+        goal = _conj(run.clause(cname, f, cexit))
+        if cname in fs.clause_lemmas:
+            goal = z3.Implies(z3.And(*fs.clause_lemmas[cname](cexit)), goal)
+        run.oblige(f"{key}/post/{cname}", goal, kind='post', clause=cname, function=key)
     if fs.implements:
         ifs = FUNCS[fs.implements]
         for cname, f in ifs.ensures.items():
